@@ -1271,17 +1271,16 @@ Section REKEY.
       eexists. split; [exact Er|]. intro q. apply (get_rename_dir f1 odir ndir _ q Hod rk_dirs_ne Er).
   Qed.
 
-  Theorem crash_safe_rekey_lemma : forall atomic g,
-    crashed (op_prog frepr atomic o) f0 g -> CInv frepr o wss f0 g.
+  (* the protocol itself (_StatePointDict._save), entered WITHOUT a validating read: the program of a whole
+     assignment through a handle that never loaded its state point (op_prog_r ... true), and the tail of every
+     other re-key route *)
+  Theorem crash_safe_rekey_core : forall atomic g,
+    crashed (rekey frepr atomic [] ws old nsp ret_res) f0 g -> CInv frepr o wss f0 g.
   Proof.
     intros atomic g H. destruct rk_src as [Hod0 [c [v0 [G [J E]]]]].
     pose proof (cinv_rk_pre c v0 G J Hod0) as Hpre.
-    unfold op_prog, o, rekey_by_id, with_sp, sp_load in H.
-    replace (ws ++ [old; SPF]) with fname in H by (unfold fname, odir; rewrite <- app_assoc; reflexivity).
-    apply crashed_do_inv in H; [|reflexivity]. destruct H as [->|H]; [exact Hpre|].
     assert (E0 : exec_res f0 (CRead fname) = (f0, FOk (RData c))) by (unfold exec_res; cbn [exec]; rewrite G; reflexivity).
     assert (Hnn : is_jnull v0 = false) by (apply (winv_job_nn frepr wss f0 ws old HW Hws Hold c v0 G J)).
-    rewrite E0 in H. cbn [fst snd] in H. rewrite J, Hnn, E, str_eqb_refl in H.
     unfold rekey in H. fold new in H.
     assert (En : str_eqb old new = false) by (apply str_eqb_neq; exact Hne).
     rewrite En in H. cbv zeta in H. fold odir ndir fname bak in H.
@@ -1364,6 +1363,20 @@ Section REKEY.
       + right. rewrite H4, path_eqb_self_snoc. rewrite <- (app_nil_r ndir). rewrite (st2_new f1 f2 S2), app_nil_r.
         apply (st1_odir c Hod0 f1 S1).
       + exact Hnspnn.
+  Qed.
+
+  Theorem crash_safe_rekey_lemma : forall atomic g,
+    crashed (op_prog frepr atomic o) f0 g -> CInv frepr o wss f0 g.
+  Proof.
+    intros atomic g H. destruct rk_src as [Hod0 [c [v0 [G [J E]]]]].
+    pose proof (cinv_rk_pre c v0 G J Hod0) as Hpre.
+    unfold op_prog, o, rekey_by_id, with_sp, sp_load in H.
+    replace (ws ++ [old; SPF]) with fname in H by (unfold fname, odir; rewrite <- app_assoc; reflexivity).
+    apply crashed_do_inv in H; [|reflexivity]. destruct H as [->|H]; [exact Hpre|].
+    assert (E0 : exec_res f0 (CRead fname) = (f0, FOk (RData c))) by (unfold exec_res; cbn [exec]; rewrite G; reflexivity).
+    assert (Hnn : is_jnull v0 = false) by (apply (winv_job_nn frepr wss f0 ws old HW Hws Hold c v0 G J)).
+    rewrite E0 in H. cbn [fst snd] in H. rewrite J, Hnn, E, str_eqb_refl in H.
+    exact (crash_safe_rekey_core atomic g H).
   Qed.
 End REKEY.
 
@@ -1466,6 +1479,15 @@ Lemma crash_safe_rekey_thm : forall frepr wss f0 w1 w2 wr old nsp atomic g,
   crash_states (op_prog frepr atomic (KRekey (w1 :: w2 :: wr) old nsp)) f0 g ->
   CInv frepr (KRekey (w1 :: w2 :: wr) old nsp) wss f0 g.
 Proof. intros. eapply crash_safe_rekey_lemma; eauto. Qed.
+
+Lemma crash_safe_assign_thm : forall frepr wss f0 w1 w2 wr old nsp atomic g,
+  WInv frepr wss f0 -> In (w1 :: w2 :: wr) wss -> In old (job_dirs f0 (w1 :: w2 :: wr)) ->
+  old <> calc_id frepr nsp ->
+  get f0 (((w1 :: w2 :: wr) ++ [old]) ++ [TMPPFX ++ [] ++ SPF]) = None ->
+  is_jnull nsp = false ->
+  crash_states (op_prog_r frepr atomic true (KRekey (w1 :: w2 :: wr) old nsp)) f0 g ->
+  CInv frepr (KRekey (w1 :: w2 :: wr) old nsp) wss f0 g.
+Proof. intros. eapply crash_safe_rekey_core; eauto. Qed.
 
 Lemma crash_safe_move_thm : forall frepr wss f0 ws dws i atomic g,
   WInv frepr wss f0 -> In ws wss -> In dws wss -> In i (job_dirs f0 ws) ->
